@@ -52,7 +52,11 @@ def run(ctx):
     # ---- roles
     def calls(fn, pred):
         return [(bid, t) for bid, t in fn.calls() if pred(callee_name(t) or "")]
-    fns = [f for f in F.rws_fns() if f.kind != "Promoted"]
+    from ..inline import is_private_helper
+    # roles are recognised on bodies with private helpers inlined (A11), and a private helper is never a role itself:
+    # `set_default_if_absent(name, default)` called eleven times is still the defaults function's work
+    all_fns = [f for f in F.rws_fns() if f.kind != "Promoted"]
+    fns = [ctx.inl(f) for f in all_fns if not is_private_helper(F, f.def_)]
     role = {}
     for fn in fns:
         nset = len(calls(fn, lambda c: c == "std::env::set_var"))
@@ -165,20 +169,13 @@ def run(ctx):
         ok_pair = vi.split("::")[-1] == n + "_DEFAULT_VALUE" and n in names
         # guard: a switch on is_ok(env::var(N)) whose false edge dominates this block
         ok_guard = False
-        for sb in dcfg.live_blocks():
-            st = dcfg.blocks[sb]["term"]
-            if st["k"] != "switch":
-                continue
-            v = ddu.val_operand(st["discr"])
-            neg = False
-            while v[0] == "unop" and v[1] == "Not":
-                v = v[2]; neg = not neg
-            if v[0] == "call" and (v[1] or "").endswith("::is_ok") and env_const_of(ddu, v) == names.get(n):
-                for val, tb in st["targets"]:
-                    if val == 0:
-                        edge_not_set = (sb, tb) if not neg else (sb, st["otherwise"])
-                        if dcfg.edge_dominates(edge_not_set, bid):
-                            ok_guard = True
+        # `if env::var(N).is_ok() == false`, `if env::var(N).is_err()`, `match env::var(N) { Err(_) => .. }`: all are an edge on
+        # which the result of env::var(N) is known not to be Ok
+        for e_, f_ in dg.facts():
+            if f_[0] == "variant" and f_[3] is False:
+                pv = ddu.val_place(ddu.canon(f_[1]))
+                if pv[0] == "call" and pv[1] == "std::env::var" and pv[2] and const_str(pv[2][0]) == names.get(n) and dcfg.edge_dominates(e_, bid):
+                    ok_guard = True
         seen_n.add(n)
         r3.instance({"setting": n, "value_item": vi.split("::")[-1], "guarded_by_unset_test": ok_guard}, ok_pair and ok_guard)
         if not (ok_pair and ok_guard):
